@@ -25,6 +25,8 @@ from lbry.blob.disk_space_manager import DiskSpaceManager
 from lbry.blob.blob_file import BlobFile
 from lbry.extras.daemon.migrator.dbmigrator import migrate_db
 from lbry.stream.descriptor import StreamDescriptor
+from lbry.stream.stream_manager import StreamManager
+from lbry.schema.claim import Claim
 
 import vlib
 
@@ -130,7 +132,7 @@ def classify(s, ignore=()):
                 removable[False] += [(h, ln, a)] * (stream_n.get(sh, 0) * file_n.get(sh, 0))
         for sh in streams_of_sd.get(h, ()):
             removable[False] += [(h, ln, a)] * file_n.get(sh, 0)
-        if fin and sb_count.get(h, 0) == 0:
+        if fin and sb_count.get(h, 0) == 0 and h not in sd_hashes:   # a stream's descriptor is no class's storage
             removable[True].append((h, ln, a))
     return {'net': net, 'content': content, 'private': private, 'removable': removable,
             'used': {True: mb(net), False: mb(content) + mb(private)}, 'sd_hashes': sd_hashes}
@@ -148,6 +150,10 @@ def monitor_pass(p, prev):
     c = classify(pre)
     used = c['used'][net]
     rows = {b[0]: b for b in pre.blobs}
+    if p.get('exc'):
+        gone = [h for h in pre.disk if h not in set(post.disk)]
+        return (f"the pass raised {p['exc']}: {len(gone)} blob file(s) were deleted, {len(pre.blobs) - len(post.blobs)} row(s) "
+                f"removed, usage after {classify(post)['used'][net]} MB (limit {limit} MB)"), 'pass-raised'
     if ret != len(deleted):
         return f'_clean returned {ret} but handed {len(deleted)} hashes to delete_blobs', 'return-value'
     if used <= limit and deleted:
@@ -161,6 +167,9 @@ def monitor_pass(p, prev):
             return f"blob {h} is the user's own (is_mine=1) and was deleted", 'own-deleted'
     removable_hashes = {r[0] for r in c['removable'][net]}
     for h in deleted:
+        if net and h in c['sd_hashes'] and h not in removable_hashes:
+            return (f'blob {h} is the descriptor (sd blob) of a stream: no storage class counts it, yet the network pass '
+                    f'deleted it'), 'network-pass-deletes-stream-descriptor'
         if h not in removable_hashes:
             return (f'blob {h} was deleted by the {"network" if net else "content"} pass but is not a removable '
                     f'blob of that storage class'), 'wrong-class'
@@ -254,31 +263,55 @@ def resolve_limit(rng_choice, used, real=None):
     raise ValueError(kind)
 
 
-async def _build_real(loop, d, bd, st, bm, spec):
-    """state produced by the application's own code paths: StreamDescriptor.create_stream (publishing), storage.store_stream,
-    save_published_file, update_blob_ownership (a download is a stream whose ownership is cleared, as upstream's
-    integration test does), BlobFile.create_from_unencrypted + blob_completed for network-seeded blobs"""
+async def _build_real(loop, d, bd, st, bm, conf, spec):
+    """state produced by the application's own code paths: the user's own streams through the real
+    StreamManager.create() (publishing), downloads as StreamDescriptor.create_stream + storage.store_stream +
+    save_published_file + update_blob_ownership(False) (as upstream's integration test does), the claim rows a publish /
+    download stores (start-up recovery only looks at files that have one), BlobFile.create_from_unencrypted +
+    blob_completed for network-seeded blobs.  Returns (hashes the user published, descriptor hash per stream)."""
     async def settle():
         for _ in range(50):
             pend = [t for t in asyncio.all_tasks() if t is not asyncio.current_task()]
             if not pend:
                 break
             await asyncio.wait(pend, timeout=5)
+    conf.reflect_streams = False
+    sm = StreamManager(loop, conf, bm, None, st, None)
+    published, sds = [], []
     for i, sp in enumerate(spec['streams']):
         path = os.path.join(d, 'src%d' % i)
         with open(path, 'wb') as f:
             f.write(bytes([i + 1]) * sp['size'])
-        descriptor = await StreamDescriptor.create_stream(loop, bd, path, blob_completed_callback=bm.blob_completed)
-        await settle()
-        await st.store_stream(bm.get_blob(descriptor.sd_hash), descriptor)
-        if sp['file']:
-            await st.save_published_file(descriptor.stream_hash, 'src%d' % i, d, 0)
-        await st.update_blob_ownership(descriptor.sd_hash, sp['mine'])
+        if sp['mine']:
+            stream = await sm.create(path)
+            descriptor = stream.descriptor
+            await settle()
+            published += [descriptor.sd_hash] + [b.blob_hash for b in descriptor.blobs[:-1]]
+            has_file = True
+        else:
+            descriptor = await StreamDescriptor.create_stream(loop, bd, path, blob_completed_callback=bm.blob_completed)
+            await settle()
+            await st.store_stream(bm.get_blob(descriptor.sd_hash), descriptor)
+            has_file = sp['file']
+            if has_file:
+                await st.save_published_file(descriptor.stream_hash, 'src%d' % i, d, 0)
+            await st.update_blob_ownership(descriptor.sd_hash, False)
+        if has_file:
+            claim = Claim()
+            claim.stream.source.sd_hash = descriptor.sd_hash
+            txid = ('%02x' % (i + 1)) * 32
+            await st.save_claims([{'txid': txid, 'nout': 0, 'claim_id': ('%02x' % (i + 1)) * 20, 'name': 'n%d' % i,
+                                   'amount': '1.0', 'height': 1, 'address': 'bYFeMtSL7ARuG1iMpjFyrnTe4oJHSAVNXF',
+                                   'claim_sequence': 1, 'value': claim}])
+            await st.save_content_claim(descriptor.stream_hash, txid + ':0')
+        sds.append(descriptor.sd_hash)
         os.remove(path)
     for j, size in enumerate(spec['net']):
         await BlobFile.create_from_unencrypted(loop, bd, bytes([j + 1]) * 16, bytes([j + 7]) * 16, bytes([j]) * size, 0,
                                                1600000000 + j, False, bm.blob_completed)
     await settle()
+    sm.stop()
+    return published, sds
 
 
 async def _run_impl(d, case):
@@ -286,6 +319,26 @@ async def _run_impl(d, case):
     db, mode = case.get('db'), case.get('added_mode', 'int')
     conf = Config(data_dir=d, wallet_dir=d, download_dir=d, config=os.path.join(d, 'c.yml'))
     dbpath = os.path.join(d, 'lbrynet.sqlite')
+    cspec = case.get('conf') or {}
+    if cspec.get('env'):
+        # a limit supplied by the environment layer of the real Config (LBRY_BLOB_STORAGE_LIMIT / LBRY_NETWORK_STORAGE_LIMIT)
+        conf.set_environment({'LBRY_BLOB_STORAGE_LIMIT': str(cspec['env'][0]), 'LBRY_NETWORK_STORAGE_LIMIT': str(cspec['env'][1])})
+    intended = {False: conf.blob_storage_limit, True: conf.network_storage_limit}
+    config_log = {False: [conf.blob_storage_limit], True: [conf.network_storage_limit]}
+    config_sets = {False: [], True: []}
+
+    def set_limit(net, v):
+        """what settings_set / the API does: assign the setting (inside update_config() the config file layer too)"""
+        name = 'network_storage_limit' if net else 'blob_storage_limit'
+        upd = bool(cspec.get('update'))
+        if upd:
+            with conf.update_config() as c:
+                setattr(c, name, v)
+        else:
+            setattr(conf, name, v)
+        intended[net] = v
+        config_sets[net].append([upd, v])
+        config_log[net].append(getattr(conf, name))
     if db is not None and db.get('legacy'):
         # a data directory written by an older release: revision 14 schema, then the REAL upgrade path
         # (lbry.extras.daemon.migrator.dbmigrator.migrate_db, what DatabaseComponent.start() calls for an old db_revision)
@@ -315,8 +368,9 @@ async def _run_impl(d, case):
     dsm = DiskSpaceManager(conf, st, bm)
     lengths = {}
     derived = None
+    real_sds = []
     if case.get('real') and db is None:
-        await _build_real(loop, d, bd, st, bm, case['real'])
+        real_published, real_sds = await _build_real(loop, d, bd, st, bm, conf, case['real'])
         con = sqlite3.connect(dbpath)
         unhex = {}
         try:
@@ -331,11 +385,14 @@ async def _run_impl(d, case):
             con.close()
         rank = {a: i + 1 for i, a in enumerate(times)}
 
-        def fwd(a): return a
-        def back(v): return rank.get(v, v)
+        base = max(times) if times else 0    # real timestamps keep their order as ranks; the harness clock runs after them
+
+        def fwd(a): return base + a
+        def back(v): return rank[v] if v in rank else int(round(v - base))
         s0 = snapshot(dbpath, bd, unhex, back)
         derived = {'blobs': [list(b) for b in s0.blobs], 'sblobs': [list(x) for x in s0.sblobs],
                    'streams': [list(x) for x in s0.streams], 'files': list(s0.files), 'disk': list(s0.disk)}
+        derived['published'] = sorted(unhex[h] for h in real_published)
         db = derived
     else:
         ids = set()
@@ -410,19 +467,23 @@ async def _run_impl(d, case):
 
     async def watched_clean(is_network_blob=False):
         net = bool(is_network_blob)
-        limit = conf.network_storage_limit if net else conf.blob_storage_limit
+        limit = intended[net]                # the limit the user configured (what the Config layers make of it is compared apart)
         pre = snapshot(dbpath, bd, unhex, back)
         cands = await st.get_stored_blobs(is_mine=False, is_network_blob=net)
         del captured[:]
-        ret = await orig_clean(is_network_blob)
+        exc = None
+        try:
+            ret = await orig_clean(is_network_blob)
+        except Exception as e:               # a pass that dies half way is judged by the monitor, the history goes on
+            ret, exc = None, type(e).__name__
         post = snapshot(dbpath, bd, unhex, back)
         if len(captured) > 1:
             raise RuntimeError('delete_blobs called more than once in one pass')
         deleted = captured[0][0] if captured else []
-        passes.append({'net': net, 'limit': limit, 'pre': pre, 'post': post, 'deleted': deleted, 'ret': ret,
+        passes.append({'net': net, 'limit': limit, 'pre': pre, 'post': post, 'deleted': deleted, 'ret': ret, 'exc': exc,
                        'delete_from_db': captured[0][1] if captured else None,
                        'cands': [[unhex[h], ln, back(a)] for h, ln, a in cands]})
-        return ret
+        return ret or 0
     dsm._clean = watched_clean
 
     # observations go through a SECOND DiskSpaceManager: the one under test lives through the whole history and its
@@ -451,6 +512,7 @@ async def _run_impl(d, case):
     steps, resolved, cleans = [], [], []
     for o in case['ops']:
         n0 = len(passes)
+        op_exc = None
         if o[0] == 'repeat':                      # same operation with the same (already resolved) limits
             if not resolved:
                 continue
@@ -467,10 +529,7 @@ async def _run_impl(d, case):
                 u = await watcher.get_space_used_mb(cached=False)
                 lim = resolve_limit(lim, u['network_storage'] if net else u['content_storage'] + u['private_storage'],
                                     stored_mb()[net])
-            if net:
-                conf.network_storage_limit = lim
-            else:
-                conf.blob_storage_limit = lim
+            set_limit(net, lim)
             await dsm._clean(net)
             resolved.append(['pass', net, lim])
         elif o[0] == 'clean':
@@ -480,8 +539,8 @@ async def _run_impl(d, case):
                 cl = resolve_limit(cl, u['content_storage'] + u['private_storage'], stored_mb()[False])
             if not isinstance(nl, int):
                 nl = resolve_limit(nl, u['network_storage'], stored_mb()[True])
-            conf.blob_storage_limit = cl
-            conf.network_storage_limit = nl
+            set_limit(False, cl)
+            set_limit(True, nl)
             clean_pre = snapshot(dbpath, bd, unhex, back)
             clean_ret = await dsm.clean()
             cleans.append({'op': len(resolved), 'cl': cl, 'nl': nl, 'pre': clean_pre, 'post': snapshot(dbpath, bd, unhex, back),
@@ -494,7 +553,10 @@ async def _run_impl(d, case):
                 mkfile(h, ln)
             resolved.append(['add', [h, ln, a, mine, True]])
         elif o[0] == 'delete':                    # the user removes blobs through the BlobManager API
-            await box['orig_delete']([nm(h) for h in o[1]], True)
+            try:
+                await box['orig_delete']([nm(h) for h in o[1]], True)
+            except sqlite3.Error as e:            # kept as an observable (the model's delete never fails)
+                op_exc = type(e).__name__
             resolved.append(['delete', list(o[1])])
         elif o[0] == 'hide':                      # blob files become invisible (directory unavailable / files moved away)
             hs = sorted(unhex[n] for n in os.listdir(bd) if n in unhex) if o[1] == 'all' else list(o[1])
@@ -528,6 +590,45 @@ async def _run_impl(d, case):
             finally:
                 blob_file_module.time = real_time
             resolved.append(['setup', now, sizes])
+        elif o[0] == 'fault':                     # an unrelated foreign-keys-off transaction fails (locked database, bad row, ...)
+            def boom(t):
+                t.execute("insert into blob values (1)").fetchall()
+            try:
+                await st.db.run_with_foreign_keys_disabled(boom)
+            except sqlite3.Error:
+                pass
+            resolved.append(['fault', o[1]])
+        elif o[0] == 'lose_sd':                   # the descriptor file of the k-th stream built through the API gets lost
+            sdh = real_sds[o[1] % len(real_sds)]
+            if os.path.exists(os.path.join(bd, sdh)):
+                os.replace(os.path.join(bd, sdh), os.path.join(away, sdh))
+            resolved.append(['hide', [unhex[sdh]]])
+        elif o[0] in ('recover_start', 'recover'):
+            # the stream manager starts: the REAL StreamManager.initialize_from_database recovers every stream that has a
+            # file row and whose descriptor blob is not on disk (rows dropped and re-inserted, descriptor file rebuilt)
+            now = o[1] if o[0] == 'recover_start' else o[2]
+            snap = snapshot(dbpath, bd, unhex, back)
+            on_disk, with_file = set(snap.disk), set(snap.files)
+            have = {b[0] for b in snap.blobs}
+            members = collections.defaultdict(list)
+            for sh, bh in snap.sblobs:
+                members[sh].append(bh)
+            # recovery rebuilds the descriptor from the rows and succeeds when it hashes to sd_hash again, i.e. when the
+            # stream's blob rows (lengths) are all still there
+            lost = sorted({sd for sh, sd in snap.streams if sh in with_file and sd not in on_disk and sd in have
+                           and all(bh in have for bh in members[sh])})
+
+            class _Clock:
+                time = staticmethod(lambda: fwd(now))
+            real_time = blob_file_module.time
+            blob_file_module.time = _Clock
+            sm = StreamManager(loop, conf, box['bm'], None, st, None)
+            try:
+                await sm.initialize_from_database()
+            finally:
+                blob_file_module.time = real_time
+                sm.stop()
+            resolved.append(['recover', lost, now])
         elif o[0] == 'status':                    # status reads on the manager under test (they fill its cache)
             if o[1] == 'used':
                 await dsm.get_space_used_mb()
@@ -538,17 +639,20 @@ async def _run_impl(d, case):
             raise ValueError('unknown op %r' % (o,))
         ob = await observe()
         ob['deleted'] = [p['deleted'] for p in passes[n0:]]
+        ob['op_exc'] = op_exc
         ob['tie'] = any(has_ties(p['cands'], p['net']) for p in passes[n0:])
         if o[0] == 'pass':
             ob['cands'] = passes[-1]['cands']
         if o[0] == 'clean':
             ob['clean_ret'] = None if clean_ret is None else repr(clean_ret)
         snap = snapshot(dbpath, bd, unhex, back)
-        ob['files_stopped'] = all(x == 'stopped' for x in snap.file_status) if snap.file_status else None
+        ob['files_stopped'] = (all(x == 'stopped' for x in snap.file_status)
+                               if snap.file_status and derived is None and not any(r[0] == 'recover' for r in resolved) else None)
         steps.append(ob)
     box['bm'].stop()
     await st.close()
-    return {'initial': initial, 'steps': steps, 'init_cands': init_cands, 'derived_db': derived, 'cleans': cleans}, resolved, passes
+    return {'initial': initial, 'steps': steps, 'init_cands': init_cands, 'derived_db': derived, 'cleans': cleans,
+            'config': {'log': config_log, 'sets': config_sets}}, resolved, passes
 
 
 def run_impl(case):
@@ -592,6 +696,8 @@ def canon_step(ob):
         out['deleted'] = [[int(x) for x in dl] for dl in ob['deleted']]
     if 'cands' in ob:
         out['cands'] = [[int(x) for x in r] for r in ob['cands']]
+    if ob.get('op_exc'):
+        out['op_exc'] = ob['op_exc']
     if len(ob.get('deleted', [])) == 2:
         out['clean_ret'] = ob.get('clean_ret')          # clean() returns None; the model side has no value either
     return out
@@ -783,6 +889,8 @@ def gen_ops(rng, db, nid):
     rng.shuffle(pending)
 
     def a_pass():
+        if rng.random() < 0.08:
+            ops.append(['fault', 'fk_tx'])
         if rng.random() < 0.25:
             ops.append(['status', rng.choice(STATUS_KINDS)])
         r = rng.random()
@@ -889,6 +997,14 @@ def gen_real(rng):
         if rng.random() < 0.6:
             ops.append(['repeat'])
     if rng.random() < 0.5:
+        # a descriptor file is lost; the node restarts (blob manager, then stream manager: start-up recovery); then a
+        # content pass that walks its whole candidate list
+        k = rng.randrange(len(streams))
+        ops += [['lose_sd', k], ['setup', 1000001], ['recover_start', 1000002],
+                rng.choice([['pass', False, ['neg', 0]], ['pass', False, ['abs', 1]], ['clean', ['abs', 1], ['neg', 0]]])]
+    if rng.random() < 0.4:
+        ops.append(rng.choice([['pass', False, ['neg', 0]], ['pass', True, ['neg', 0]], ['clean', ['neg', 0], ['neg', 0]]]))
+    if rng.random() < 0.5:
         # restart around an unavailable blob directory
         ops = [['hide', 'all'], ['setup', 1], ['restore', 'all'], ['setup', 2]] + ops
         ops.append(['pass', False, ['below', rng.randrange(1000)]])
@@ -903,7 +1019,7 @@ def check_case(run, model, case, kind):
     impl, resolved, passes = run_impl(case)
     case = dict(case, ops=resolved, kind=kind)       # self-contained: every limit absolute, repeats expanded
     if impl.get('derived_db') is not None:           # state built through the application's API: keep its row-level form
-        case = dict(case, db=impl['derived_db'], origin=case.get('real'))
+        case = dict(case, db=impl['derived_db'], origin=case.get('real'), published=impl['derived_db'].pop('published'))
         case.pop('real', None)
     pos = {}
     for i, h in enumerate(impl['init_cands']):
@@ -946,6 +1062,8 @@ def check_case(run, model, case, kind):
             if clause == 'within-limit' and not p['net'] and p['limit'] != 0:
                 sig = {'site': 'DiskSpaceManager._clean', 'content_limit': 'non-zero', 'usage': 'within limit'}
                 sig = dict(sig, case=hashlib.sha1(vlib.canon(case).encode()).hexdigest()[:12])
+            elif clause == 'network-pass-deletes-stream-descriptor':
+                sig = {'site': 'SQLiteStorage.get_stored_blobs(is_network_blob=True)', 'clause': clause}
             else:
                 sig = {'clause': clause, 'net': p['net'], 'limit': p['limit'],
                        'case': hashlib.sha1(vlib.canon(case).encode()).hexdigest()[:12]}
@@ -963,7 +1081,7 @@ def check_case(run, model, case, kind):
     # and: what is charged to a class is what is stored.  A restart (BlobManager.setup) reconciles the table with the blob
     # directory; rows still 'finished' after it although their file was not there are phantoms: a pass must not delete
     # anything while the usage WITHOUT them is within the limit
-    published = {b[0] for b in start_blobs if b[3]}
+    published = set(case['published']) if 'published' in case else {b[0] for b in start_blobs if b[3]}
     present = {b[0] for b in start_blobs}
     phantom = set()
     legacy_ids = {r[0] for r in case['db'].get('legacy', [])}
@@ -998,7 +1116,10 @@ def check_case(run, model, case, kind):
                        if lost[0] in legacy_ids else 'was published by the user (its row was created with is_mine=1)')
                 bad = (f"blob {lost[0]} {how} and was deleted by the "
                        f"{'network' if p['net'] else 'content'} pass of operation {i}",
-                       {'clause': 'published-deleted', 'op': i, 'case': hashlib.sha1(vlib.canon(case).encode()).hexdigest()[:12]})
+                       ({'site': 'SQLiteStorage.recover_streams', 'clause': 'published-deleted-after-recovery'}
+                        if any(x[0] == 'recover' and x[1] for x in case['ops'][:i]) else
+                        {'clause': 'published-deleted', 'op': i,
+                         'case': hashlib.sha1(vlib.canon(case).encode()).hexdigest()[:12]}))
         pi += {'pass': 1, 'clean': 2}.get(o[0], 0)
         if i < len(impl['steps']):
             present = {b[0] for b in impl['steps'][i]['blobs']}
@@ -1016,6 +1137,13 @@ def check_case(run, model, case, kind):
         run.violation(case, bad[0], signature=bad[1])
         return
     compare(run, case, impl, mod)
+    # the Config layers (lbry/conf.py) against the model's [effective] / [assign]: the limit in force after every assignment
+    env = (case.get('conf') or {}).get('env')
+    for net in (False, True):
+        if impl['config']['sets'][net] or env:
+            want = model.call('effective', env=env[1 if net else 0] if env else None, sets=impl['config']['sets'][net])
+            run.compare('C19.config_layers', dict(case, cls='network' if net else 'content'),
+                        [int(x) for x in impl['config']['log'][net]], [int(x) for x in want])
     # the whole history through one call of the extracted [run]
     whole = model.call('run_whole', db=mdb, ops=case['ops'])
     flat = [dl for s in mod['steps'] for dl in s['deleted']]
@@ -1095,6 +1223,11 @@ def main(run):
         db, loaded, ties, nid = gen_db(rng, 6 if small else max_blobs)
         ops = gen_ops(rng, db, nid)
         case = {'db': db, 'ops': ops, 'loaded': loaded, 'ties': ties, 'added_mode': 'float' if rng.random() < 0.25 else 'int'}
+        if rng.random() < 0.2:
+            # limits also come from the environment layer of the Config; what the user assigns later must win
+            case['conf'] = {'env': [rng.randrange(1, 12), rng.randrange(1, 12)], 'update': rng.random() < 0.5}
+            if rng.random() < 0.5:   # ... in particular "unlimited" (0, the default) for content storage
+                case['ops'] = case['ops'] + [['pass', False, ['zero', 0]], ['clean', ['zero', 0], ['below', rng.randrange(1000)]]]
         if rng.random() < 0.1:
             case['db'], case['added_mode'] = make_legacy(rng, db), 'int'
             if rng.random() < 0.7:      # the first thing after the upgrade is a content pass far over its limit
@@ -1112,6 +1245,10 @@ def main(run):
 
 
 def replay(run, case):
+    if case.get('origin'):           # a state built through the application API is rebuilt the same way
+        case = dict(case, real=case['origin'])
+        case.pop('db', None)
+        case.pop('published', None)
     model = vlib.Model('C19')
     check_case(run, model, case, case.get('kind', 'replay'))
     model.close()
